@@ -25,6 +25,10 @@ FOLLOWUP = '[ min ( 1 , 2 ) , ! true , 1 ++ , 1 + 1 ]'
 FOLLOWUP_VALUE = {'t': 'list', 'v': [{'t': 'num', 'm': '1', 's': 0}, {'t': 'bool', 'v': False}, {'t': 'num', 'm': '2', 's': 0}, {'t': 'num', 'm': '2', 's': 0}]}
 
 
+REPEATED = ('all-kinds', 'list')
+REPEAT = {'quick': 140, 'thorough': 300}
+
+
 def templates(tier):
     sp = opsem.spec
     num = sp(['num'], (0,))
@@ -44,6 +48,8 @@ def templates(tier):
     add('cond', 'b ? +++ f1 ( ) : g1 ---', {'f1': num, 'g1': num}, 2, {'b': sp(['bool'])})
     add('assign-target-fn', 'g1 = f1 ( ) ; g1', {'f1': num, 'g1': num}, 2)
     add('assign-compound-target-fn', 'g1 += f1 ( ) ; x = gf ( 1 )', {'f1': num, 'g1': num}, 3)
+    add('setter-op', 'x becomes f1 ( ) ; y = +++ x', {'f1': num}, 3, {'x': num})
+    add('setter-op-target-fn', 'g1 becomes 1 ; g1', {'g1': num}, 2)
     return out
 
 
@@ -86,7 +92,11 @@ def harness(it, px, params):
     vars_ = {nm: sv.sym_value(it, px, nm, s) for nm, s in sorted(vspecs.items())}
     frets = {nm: sv.sym_value(it, px, 'ret_' + nm, s) for nm, s in sorted(fspecs.items())}
     px.get_model()
-    res = es.run_template(it, px, toks, vars_, frets, fault_at=fault, fault_kind=fkind, use_globals=True, followup=followup)
+    # deep templates are also run REPEAT more times before the follow-up (state leaked per failure adds up)
+    rep = params.get('repeat', 0) if (fault and tid in REPEATED) else 0
+    res = es.run_template(it, px, toks, vars_, frets, fault_at=fault, fault_kind=fkind, use_globals=True, followup=followup, repeat=rep)
+    if rep:
+        px.cover('repeated-failures')
     rec = {'tpl': tid, 'text': res['text'], 'fault_at': fault, 'fault_kind': fkind, 'outcome': res['got'].kind, 'want': res['want_kind'], 'log': res['log_m']}
     px.cover('tpl-' + tid)
     if fault and len(res['log_m']) == fault:
@@ -103,7 +113,7 @@ def harness(it, px, params):
         probs.append(('followup-get-' + fo['get'], 'get_variable on the same context fails afterwards'))
     m = res.get('cex_model') or px.get_model()
     rec['witness'] = {'vars': {nm: sv.concrete(v, m) for nm, v in vars_.items()}, 'funcs': {nm: sv.concrete(v, m) for nm, v in frets.items()},
-                      'fault_at': fault, 'fault_kind': fkind}
+                      'fault_at': fault, 'fault_kind': fkind, 'repeat': rep}
     for cause, desc in probs:
         px.finding({'key': 'C15|%s|%s|%s' % (cause, tid, fkind), 'desc': '`%s` (%s at invocation %d): %s' % (res['text'], fkind, fault, desc),
                     'text': res['text'], 'tpl': tid, 'witness': rec['witness'], 'cause': cause})
@@ -126,6 +136,7 @@ def scenario(text, witness):
              {'op': 'register_prefix', 'name': b'+++'.hex(), 'handler': handler_spec('+++', 'first', witness)},
              {'op': 'register_postfix', 'name': b'---'.hex(), 'handler': handler_spec('---', 'first', witness)},
              {'op': 'register_infix', 'name': b'hi'.hex(), 'prec': es.HI_PREC, 'type': 'CALC', 'assoc': 'LEFT', 'handler': handler_spec('hi', 'first', witness)},
+             {'op': 'register_infix', 'name': b'becomes'.hex(), 'prec': es.BECOMES_PREC, 'type': 'SETTER', 'assoc': 'RIGHT', 'handler': handler_spec('becomes', 'first', witness)},
              {'op': 'ctx_new', 'ctx': 'c'}]
     for n, v in sorted(witness['vars'].items()):
         steps.append({'op': 'ctx_set_var', 'ctx': 'c', 'name': n.encode().hex(), 'value': v})
@@ -133,6 +144,9 @@ def scenario(text, witness):
         steps.append({'op': 'ctx_set_func', 'ctx': 'c', 'name': n.encode().hex(), 'handler': handler_spec(n, 'const', witness, v)})
     steps.append({'op': 'execute', 'hex': text.encode().hex(), 'ctx': 'c'})
     steps.append({'op': 'ctx_dump', 'ctx': 'c'})
+    for _ in range(witness.get('repeat', 0)):
+        steps.append({'op': 'reset_counter'})
+        steps.append({'op': 'execute', 'hex': text.encode().hex(), 'ctx': 'c'})
     steps.append({'op': 'execute', 'hex': FOLLOWUP.encode().hex(), 'ctx': 'c'})
     steps.append({'op': 'ctx_get', 'ctx': 'c', 'name': b'x'.hex()})
     return steps
@@ -171,6 +185,7 @@ def concrete_reference(text, witness):
     ev.prefix_extra['+++'] = wrap('+++', first, True)
     ev.postfix_extra['---'] = wrap('---', first, True)
     ev.infix_handlers['hi'] = wrap('hi', first, True)
+    ev.infix_handlers['becomes'] = wrap('becomes', first, True)
     try:
         v = ev.eval(rf.ref_parse(toks, infix, prefix=rf.BUILTIN_PREFIX + ('+++',), postfix=rf.BUILTIN_POSTFIX + ('---',)), env)
         kind, val = 'ok', render.value_json(v, opsem._EmptyModel())
@@ -188,6 +203,12 @@ def concrete_reference(text, witness):
     return kind, val, ents, env.log
 
 
+def four(obs, witness):
+    """[execute, ctx_dump, follow-up execute, ctx_get] out of a scenario's observations (repeats in between skipped)"""
+    i = len(obs) - 4 - 2 * witness.get('repeat', 0)
+    return [obs[i], obs[i + 1], obs[-2], obs[-1]]
+
+
 def native_disagrees4(obs, ref):
     """obs = [execute, ctx_dump, followup execute, ctx_get]"""
     if c07.native_disagrees(obs[0], obs[1], ref):
@@ -201,7 +222,7 @@ def native_disagrees4(obs, ref):
 
 def run(ctx):
     tpls = templates(ctx.tier)
-    params = {'templates': tpls, 'seed': ctx.seed, 'timeout_ms': 10000, 'step_limit': 400000}
+    params = {'templates': tpls, 'seed': ctx.seed, 'timeout_ms': 10000, 'step_limit': 4000000, 'repeat': REPEAT[ctx.tier]}
     eng = ctx.engine('dev')
     recs, summ = ex.explore(eng, harness, params, prepare=prepare)
     res = c06.judge(ctx, 'C15', tpls, recs, summ, scenario, concrete_reference,
@@ -220,22 +241,22 @@ def run(ctx):
         od = ctx.native(sc, 'dev')
         orl = ctx.native(sc, 'release')
         validated += 1
-        confirmed = bool(native_disagrees4(od[-4:], ref)) or bool(native_disagrees4(orl[-4:], ref))
+        confirmed = bool(native_disagrees4(four(od, f['witness']), ref)) or bool(native_disagrees4(four(orl, f['witness']), ref))
         res['findings'].append({'key': key, 'desc': f['desc'][:300], 'confirmed': confirmed, 'scenario': sc,
                                 'expect': {'reference': {'kind': ref[0], 'value': ref[1], 'ctx': ref[2], 'log': ref[3]}, 'then': 'ctx not poisoned, `1 + 1` == 2, get_variable works'},
                                 'witness_text': '%s with %s' % (f['text'], json.dumps(f['witness'])[:300]),
-                                'native': {'dev': od[-4:], 'release': orl[-4:]}, 'id': sid([key, f['witness']]), 'count': len(fs)})
+                                'native': {'dev': four(od, f['witness']), 'release': four(orl, f['witness'])}, 'id': sid([key, f['witness']]), 'count': len(fs)})
     okrecs = [r for r in recs if r['status'] == 'done' and not r.get('findings')]
     for r in okrecs[:: max(1, len(okrecs) // 60)]:
         od = ctx.native(scenario(r['text'], r['witness']), 'dev')
         validated += 1
-        if native_disagrees4(od[-4:], concrete_reference(r['text'], r['witness'])):
-            res['inconclusive'].append('sampled path disagrees natively: `%s` %s native=%s' % (r['text'], json.dumps(r['witness'])[:200], json.dumps(od[-4:])[:300]))
+        if native_disagrees4(four(od, r['witness']), concrete_reference(r['text'], r['witness'])):
+            res['inconclusive'].append('sampled path disagrees natively: `%s` %s native=%s' % (r['text'], json.dumps(r['witness'])[:200], json.dumps(four(od, r['witness']))[:300]))
     res['evidence']['coverage']['traces_validated_against_impl'] = validated
     covers = set()
     for r in recs:
         covers.update(r.get('covers', []))
-    for need in ('fault-err-hit', 'fault-panic-hit'):
+    for need in ('fault-err-hit', 'fault-panic-hit', 'repeated-failures'):
         if need not in covers:
             res['inconclusive'].append('vacuity: %s never reached' % need)
     res['evidence']['coverage']['exhaustive'] = not res['inconclusive']
